@@ -174,6 +174,27 @@ func equalCardPerturbation(r *Rng, m *ISet, universe uint64) (*ISet, string) {
 	if len(ivs) == 0 {
 		return nil, ""
 	}
+	if r.Chance(0.35) {
+		// shift one boundary of a gap between two intervals of the same chunk by one (the gap keeps its width, the
+		// set its cardinality; with an interior gap also its minimum and maximum)
+		for try := 0; try < 10 && len(ivs) > 1; try++ {
+			i := r.Intn(len(ivs) - 1)
+			l, h := ivs[i], ivs[i+1]
+			if l.Hi>>16 != h.Lo>>16 {
+				continue
+			}
+			pm := m.Clone()
+			if r.Chance(0.5) && h.Hi > h.Lo { // the gap moves up: its first value is filled, the value after it removed
+				pm.Add(l.Hi + 1)
+				pm.Remove(h.Lo)
+				return pm, fmt.Sprintf("gap-shifted up at %d", l.Hi+1)
+			} else if l.Hi > l.Lo {
+				pm.Remove(l.Hi)
+				pm.Add(h.Lo - 1)
+				return pm, fmt.Sprintf("gap-shifted down at %d", l.Hi)
+			}
+		}
+	}
 	if r.Chance(0.6) {
 		// move one value inside its chunk
 		for try := 0; try < 20; try++ {
